@@ -277,9 +277,10 @@ def run(tier, seed):
             # finite automaton, full graph: every edge, every path to depth 5/6, random walks
             replay(chk, g, list(core.edge_cover_paths(g)), params, label + ' edges')
             depth = 6 if thorough else 4
-            dfs = list(core.paths_dfs(g, depth, max_noop=depth))
-            if not thorough and len(dfs) > 2500:
-                dfs = rng.sample(dfs, 2500)
+            dfs = list(core.paths_dfs(g, depth, max_noop=depth, limit=400000))
+            cap = 60000 if thorough else 2500
+            if len(dfs) > cap:
+                dfs = rng.sample(dfs, cap)
             replay(chk, g, dfs, params, label + ' depth%d' % depth)
             # against the reference server: every subset of accepted mechanisms x answers
             res, gp = tlc.dump_graph('AuthPair', 'p.cfg', extra={'p.cfg': client_cfg(unix, ck, True)}, timeout=300, workers=4)
